@@ -1,6 +1,82 @@
 (* C14 — Output does not depend on MCNP-insignificant formatting of the deck.
    Only restatements; proofs are in C14/Proofs*.v. *)
 From Coq Require Import List NArith Bool String Ascii.
-From T4V Require Import Base.Str C14.Model.
+From T4V Require Import Base.Str C14.Model C14.ProofsContent C14.ProofsCards.
 Import ListNotations.
 Open Scope string_scope.
+
+(* re_spaces.sub(' ', s) in closed form: an optional leading blank, the words
+   of s (str.split()) joined by single blanks, an optional trailing blank. *)
+Theorem C14_squeeze_closed_form : forall s : string,
+  squeeze s =
+  pad (starts_ws s) ++ join " " (words s) ++ pad (ends_ws s && nonnil (words s)).
+Proof. exact squeeze_closed_form. Qed.
+Print Assumptions C14_squeeze_closed_form.
+
+(* Card.content on any placement of a card's tokens on its (non-comment)
+   physical lines: whatever blanks and tabs stand between the tokens, wherever
+   the lines are broken, whatever "$ ..." or "& ..." trailers end the lines, the
+   content is the tokens joined by single blanks (with at most one blank in
+   front and one behind), and splitting it gives the tokens back. *)
+Theorem C14_content_layout : forall ls : list pline,
+  Forall line_ok ls ->
+  content (map line_text ls) =
+    pad (starts_ws (joined ls)) ++ join " " (flat_map ptoks ls)
+    ++ pad (ends_ws (joined ls) && nonnil (flat_map ptoks ls))
+  /\ words (content (map line_text ls)) = flat_map ptoks ls.
+Proof. intros ls H. split; [exact (content_layout ls H)|exact (content_words ls H)]. Qed.
+Print Assumptions C14_content_layout.
+
+(* get_cards(block, skipcomments=True): a block whose cards start on lines that
+   are not continuations and continue on lines that are (5 leading blanks after
+   tab expansion, or the previous card line ends with "&"), with c-comment
+   lines anywhere between the lines, yields exactly the cards' own lines. *)
+Theorem C14_cards_grouping : forall (cs : list pcard) (tailc : list string),
+  block_ok "" cs -> comment_lines tailc ->
+  get_cards_lines (flat_map pc_phys cs ++ tailc)%list = map pc_lines cs.
+Proof. exact cards_grouping. Qed.
+Print Assumptions C14_cards_grouping.
+
+(* the two together, with every condition stated on the layout itself:
+   contents of the cards of a block = tokens joined by single blanks. *)
+Theorem C14_cards_layout : forall (cs : list lcard) (tailc : list string),
+  lblock_ok noline cs -> comment_lines tailc ->
+  map content (get_cards_lines (flat_map pc_phys (map lc_pcard cs) ++ tailc)%list)
+  = map card_content_form cs
+  /\ map words (map content (get_cards_lines (flat_map pc_phys (map lc_pcard cs) ++ tailc)%list))
+     = map lc_toks cs.
+Proof.
+  intros cs tailc H Ht. split; [exact (cards_layout cs tailc H Ht)|exact (cards_layout_words cs tailc H Ht)].
+Qed.
+Print Assumptions C14_cards_layout.
+
+(* non-vacuity: two cards on five lines with a tab, an & continuation followed
+   by a comment line, a 5-blank continuation, $ trailers *)
+Definition ex_c1 : lcard :=
+  [ ([], mk_pline [("", "1"); (" ", "so")] " " "&  $ x");
+    (["c a comment"], mk_pline [(" ", "5.0")] "" "$ r") ].
+Definition ex_c2 : lcard :=
+  [ (["C"], mk_pline [("  ", "2"); (String tab "", "PX")] "" "");
+    ([], mk_pline [("      ", "1")] "" "") ].
+
+Example C14_cards_layout_nonvacuous :
+  lblock_ok noline [ex_c1; ex_c2] /\ comment_lines ["c end"] /\
+  (flat_map pc_phys (map lc_pcard [ex_c1; ex_c2]) ++ ["c end"])%list
+  = ["1 so &  $ x"; "c a comment"; " 5.0$ r"; "C"; "  2" ++ String tab "PX"; "      1"; "c end"] /\
+  map card_content_form [ex_c1; ex_c2] = ["1 so 5.0 "; " 2 PX 1"].
+Proof.
+  split; [|split; [|split]]; try reflexivity.
+  - cbn. unfold line_ok, not_c, comment_lines, item_ok, gap_nonempty, trailer_ok. cbn.
+    repeat match goal with
+           | |- _ /\ _ => split
+           | |- Forall _ [] => constructor
+           | |- Forall _ (_ :: _) => constructor
+           | |- True => exact I
+           | |- _ <> _ => discriminate
+           | |- _ = _ => reflexivity
+           | |- "" = "" \/ _ => left; reflexivity
+           | |- _ \/ (exists c r, String ?x ?y = String c r /\ _) => right; exists x, y; split; reflexivity
+           end.
+    all: try (left; reflexivity); try (right; reflexivity).
+  - repeat constructor.
+Qed.
